@@ -409,6 +409,34 @@ func runC17(r *Run) {
 			fmt.Sprintf("machine-word arithmetic on the way to the next base fee (%s): whether it can wrap depends on run-time magnitudes (base fee × gas delta needs up to 128 bits); the EIP-1559 formula is defined over unbounded integers", strings.Join(mw, "; ")))
 	}
 
+	// ---------- R7: gas quantities are unsigned 64-bit ----------
+	r.Rule("R7", "SHAPE.gas-is-unsigned: gas used and the gas target are uint64 quantities (an unlimited block is MaxUint64 gas, the target MaxUint64/elasticity); CalculateBaseFee and the feemarket-keeper functions it calls never narrow a big integer through the signed Int64()/IsInt64() — a signed guard declares every target above MaxInt64 invalid, so with unlimited block gas and elasticity 1 the base fee freezes instead of falling to the floor")
+	{
+		var signed []string
+		seenF := map[*ssa.Function]bool{}
+		var walk func(fn *ssa.Function, d int)
+		walk = func(fn *ssa.Function, d int) {
+			if fn == nil || fn.Blocks == nil || seenF[fn] {
+				return
+			}
+			seenF[fn] = true
+			for _, f := range withAnon(fn) {
+				eachCall(f, func(ci CallInfo) {
+					if (ci.Name == "Int64" || ci.Name == "IsInt64") && ci.Recv == "Int" {
+						signed = append(signed, ci.String()+" at "+P.Pos(instrPos(ci.Instr)))
+					}
+					if d > 0 && ci.Static != nil && fnPkgPath(ci.Static) == fnPkgPath(cb) {
+						walk(ci.Static, d-1)
+					}
+				})
+			}
+		}
+		walk(cb, 3)
+		nU := len(findCalls(cb, func(ci CallInfo) bool { return (ci.Name == "Uint64" || ci.Name == "IsUint64") && ci.Recv == "Int" }))
+		r.Check(len(signed) == 0 && nU >= 2, "R7", fnID(cb)+"#gas-is-unsigned", P.Pos(fnPos(cb)), fmt.Sprintf("%d unsigned narrowings (IsUint64 guard + Uint64), no signed one", nU),
+			"the gas target is narrowed through a signed 64-bit integer ("+strings.Join(signed, "; ")+"): targets between MaxInt64 and MaxUint64 — unlimited block gas with a small elasticity multiplier — are treated as invalid and the base fee stops moving")
+	}
+
 	// ---------- R4: the inputs of the next base fee are recorded on every block and survive a genesis restart ----------
 	r.Rule("R4", "PATH.gas-wanted-recorded: GasWantedDecorator reaches next only through an error-checked AddTransientGasWanted(ctx, feeTx.GetGas()) except over the tabled bypass edges (not a FeeTx / before London, GetBaseFeeEnabled() false) — the declared gas of every transaction enters the block figure whenever the fee market is enabled, whatever the current base fee; feemarket InitGenesis restores the previous block's figure (SetBlockGasWanted(GenesisState.BlockGas)) so the first block after an export/import restart computes the same base fee as the uninterrupted chain")
 	if gw, ok := P.FnOK("(app/ante/evm.GasWantedDecorator).AnteHandle"); ok {
